@@ -523,26 +523,17 @@ def _branches(sel):
 
 
 def operator_table(sel):
-    tree = ast.parse(Path(sel.__file__).read_text())
-    node = None
-    for n in tree.body:
-        if isinstance(n, ast.Assign) and any(isinstance(t, ast.Name) and t.id == "AST_OPERATORS" for t in n.targets):
-            node = n.value
-    if not isinstance(node, ast.Dict):
-        raise Unsupported("AST_OPERATORS is not a dict display")
+    """AST_OPERATORS by IDENTITY of the live functions with the functions of module `operator`."""
+    names = ["add", "sub", "mul", "matmul", "truediv", "floordiv", "mod", "pow", "lshift", "rshift", "and_", "or_", "xor",
+             "not_", "neg", "pos", "invert", "eq", "ne", "lt", "le", "gt", "ge", "contains", "is_", "is_not", "truth"]
     tbl = {}
-    for k, v in zip(node.keys, node.values):
-        if not (isinstance(k, ast.Attribute) and isinstance(k.value, ast.Name) and k.value.id == "ast"):
-            raise Unsupported("AST_OPERATORS key at line %d" % k.lineno)
-        if not (isinstance(v, ast.Attribute) and isinstance(v.value, ast.Name) and v.value.id == "operator"):
-            raise Unsupported("AST_OPERATORS[%s] is not operator.<name> (line %d)" % (k.attr, v.lineno))
-        tbl[k.attr] = v.attr
-    live = sel.AST_OPERATORS
-    if len(live) != len(tbl):
-        raise Unsupported("AST_OPERATORS live table differs from its source")
-    for kind, name in tbl.items():
-        if live.get(getattr(ast, kind)) is not getattr(_operator, name):
-            raise Unsupported("AST_OPERATORS[%s] live value differs from its source" % kind)
+    for node_cls, fn in sel.AST_OPERATORS.items():
+        if not (isinstance(node_cls, type) and issubclass(node_cls, ast.AST)):
+            raise Unsupported("AST_OPERATORS key %r is not an ast node class" % (node_cls,))
+        hit = [n for n in names if getattr(_operator, n) is fn]
+        if not hit:
+            raise Unsupported("AST_OPERATORS[%s] is not a function of module operator" % node_cls.__name__)
+        tbl[node_cls.__name__] = hit[0]
     return tbl
 
 
@@ -603,80 +594,370 @@ def helper_signatures(sel):
     return out
 
 
+# ---------------------------------------------------------------------------------------------
+# OBSERVED facts: every boolean fact has witness expressions that are evaluated by the real engines
+
+def _probe_records():
+    import datetime
+    from flow.record import RecordDescriptor
+    ts = datetime.datetime(2020, 1, 1, tzinfo=datetime.timezone.utc)
+    flat = RecordDescriptor("probe/c07flat", [("varint", "n"), ("varint", "m"), ("string", "s"), ("varint[]", "a"), ("varint", "u")])
+    inner = RecordDescriptor("probe/c07inner", [("uri", "link"), ("string", "txt"), ("varint", "num")])
+    outer = RecordDescriptor("probe/c07outer", [("string", "s"), ("string", "t"), ("record", "sub"), ("record[]", "subs")])
+    r1 = flat(n=100, m=5, s="abc", a=[1, 2, 3], u=None, _generated=ts)
+    i1 = inner(link="http://example.com/dl/evil.bin", txt="hello", num=5, _generated=ts)
+    i2 = inner(link="http://other.org/a/b.txt", txt="world", num=7, _generated=ts)
+    r2 = outer(s="top", t="tt", sub=i1, subs=[i2], _generated=ts)
+    return r1, r2
+
+
+def _run(sel, engine, expr, rec):
+    cls = sel.Selector if engine == "interpreted" else sel.CompiledSelector
+    try:
+        v = cls(expr).match(rec)
+    except Exception as e:  # noqa
+        return ("exc", type(e).__name__)
+    return ("val", v if isinstance(v, (bool, int, str, type(None))) else type(v).__name__, type(v).__name__)
+
+
+def _decide(what, sel, witnesses, engines=("interpreted",)):
+    """witnesses: (expression, record, outcome when the fact is true, outcome when it is false).  All witnesses must speak
+    with one voice."""
+    votes = set()
+    for expr, rec, if_true, if_false in witnesses:
+        for eng in engines:
+            got = _run(sel, eng, expr, rec)[:2]
+            if got == if_true:
+                votes.add(True)
+            elif got == if_false:
+                votes.add(False)
+            else:
+                raise Unsupported("%s: witness %s (%s engine) gives %r, neither %r nor %r" % (what, expr, eng, got, if_true, if_false))
+    if len(votes) != 1:
+        raise Unsupported("%s: the witnesses contradict each other" % what)
+    return votes.pop()
+
+
+class _Log(list):
+    pass
+
+
+def _make_probe(log, truth):
+    """objects that log what is done to them: attribute reads, truth tests, comparisons, arithmetic, calls"""
+
+    class PV:
+        def __init__(self, name):
+            object.__setattr__(self, "_n", name)
+
+        def __getattr__(self, k):
+            if k.startswith("__"):
+                raise AttributeError(k)
+            log.append("get %s.%s" % (self._n, k))
+            return PV(self._n + "." + k)
+
+        def __bool__(self):
+            log.append("bool %s" % self._n)
+            return truth.get(self._n, True)
+
+        def _cmp(op):
+            def f(self, other):
+                log.append("%s %s %s" % (op, self._n, getattr(other, "_n", repr(other))))
+                return truth.get("%s %s" % (op, self._n), True)
+            return f
+
+        __lt__, __le__, __gt__, __ge__ = _cmp("lt"), _cmp("le"), _cmp("gt"), _cmp("ge")
+        __eq__, __ne__ = _cmp("eq"), _cmp("ne")
+        __hash__ = None
+
+        def _bin(op):
+            def f(self, other):
+                log.append("%s %s %s" % (op, self._n, getattr(other, "_n", repr(other))))
+                return PV("(%s %s %s)" % (self._n, op, getattr(other, "_n", repr(other))))
+            return f
+
+        __add__, __mul__, __mod__, __and__, __or__, __sub__ = _bin("add"), _bin("mul"), _bin("mod"), _bin("and"), _bin("or"), _bin("sub")
+
+        def __call__(self, *a, **k):
+            log.append("call %s" % self._n)
+            return PV(self._n + "()")
+
+    class PR:
+        class _D:
+            name = "probe/rec"
+
+            @staticmethod
+            def getfields(t):
+                return []
+        _desc = _D()
+
+        def __getattr__(self, k):
+            if k.startswith("_"):
+                raise AttributeError(k)
+            log.append("get r.%s" % k)
+            return PV("r." + k)
+
+    return PR()
+
+
+ORDER_BATTERY = [
+    # expression, truth overrides, expected event log, expected outcome kind
+    ("r.a + r.b", {}, ["get r.a", "get r.b", "add r.a r.b"], "val"),
+    ("r.a - r.b", {}, None, "KeyError"),                       # filled in from binop_lookup_first
+    ("r.a and r.b and r.c", {"r.a": False}, ["get r.a", "bool r.a", "get r.b", "bool r.b", "get r.c", "bool r.c"], "val"),
+    ("r.a or r.b", {}, ["get r.a", "bool r.a", "get r.b", "bool r.b"], "val"),
+    ("not r.a", {}, ["get r.a", "bool r.a"], "val"),
+    ("r.a < r.b < r.c", {}, ["get r.a", "get r.b", "lt r.a r.b", "get r.c", "lt r.b r.c"], "val"),
+    ("r.a < r.b < r.c", {"lt r.a": False}, ["get r.a", "get r.b", "lt r.a r.b"], "val"),
+    ("[r.a, r.b] == (r.c, r.d)", {}, ["get r.a", "get r.b", "get r.c", "get r.d"], "val"),
+    ("r.f(r.a)", {}, ["get r.f"], "InvalidOperation"),          # the callee is judged before an argument is evaluated
+    ("lower(r.a)", {}, ["get r.a"], "val"),
+    ("lower(s=r.a) == upper(r.b)", {}, ["get r.a", "get r.b", "eq r.a r.b"], "val"),
+    ("r.a.b.c == 1", {}, ["get r.a", "get r.a.b", "get r.a.b.c", "eq r.a.b.c 1"], "val"),
+    ("any(x for x in [r.a, r.b])", {}, ["get r.a", "get r.b", "bool r.a"], "val"),
+    ("all(x for x in [r.a, r.b] if r.c)", {}, ["get r.a", "get r.b", "get r.c", "bool r.c", "bool r.a", "get r.c", "bool r.c", "bool r.b"], "val"),
+    ("r.__class__", {}, [], "InvalidOperation"),
+    ("r.a % r.b == r.c", {}, ["get r.a", "get r.b", "mod r.a r.b", "get r.c", "eq (r.a mod r.b) r.c"], "val"),
+]
+
+
+def observe_order(sel, facts):
+    """evaluation order / which sub-expressions are evaluated, on logging probe objects, against what the transcription
+    in model/SelSem.v does (left to right; and/or eager with bool() after each operand; chain stops at a false link;
+    callee before arguments; operator lookup before operands)"""
+    bad = []
+    for expr, truth, want_log, want_out in ORDER_BATTERY:
+        if expr == "r.a - r.b":
+            want_log = [] if facts["binop_lookup_first"] else ["get r.a", "get r.b"]
+        if expr.count("<") == 2 and not facts["chained"]:
+            continue
+        log = _Log()
+        probe = _make_probe(log, truth)
+        try:
+            sel.Selector(expr).match(probe)
+            out = "val"
+        except Exception as e:  # noqa
+            out = type(e).__name__
+        if out != want_out or list(log) != want_log:
+            bad.append("%s: %s %r (transcribed: %s %r)" % (expr, out, list(log), want_out, want_log))
+    return bad
+
+
+def observe(sel):
+    r1, r2 = _probe_records()
+    S = sel.NONE_OBJECT
+    f = {}
+    V, E = (lambda v: ("val", v)), (lambda n: ("exc", n))
+    f["chained"] = _decide("compare_is_chained", sel, [
+        ("1 < r.n < 3", r1, V(False), V(True)),
+        ("1 < r.m < 3 < r.n", r1, V(False), V(True)),
+        ("0 < r.m < 4", r1, V(False), V(True)),
+    ])
+    f["ifs"] = _decide("comprehension_ifs_honoured", sel, [
+        ("any(x for x in [1, 2] if x > 5)", r1, V(False), V(True)),
+        ("all(x > 1 for x in [1, 2] if x > 1)", r1, V(True), V(False)),
+        ("any(x == 1 for x in r.a if x > 1 if x < 3)", r1, V(False), V(True)),
+    ])
+    f["scoped"] = _decide("generator_variables_scoped", sel, [
+        ("any(x == 1 for x in r.a) and any(x == 2 for x in r.a)", r1, V(True), E("InvalidOperation")),
+        ("all(any(y >= x for y in r.a) for x in r.a)", r1, V(True), E("InvalidOperation")),
+    ])
+    # ... and nothing is left behind in self.data
+    s0 = sel.Selector("any(x == 9 for x in r.a for y in r.a)")
+    s0.match(r1)
+    leaked = sorted(k for k in s0.matcher.data if k in ("x", "y"))
+    if f["scoped"] and leaked:
+        raise Unsupported("generator variables %r stay in self.data although sibling generators may reuse them" % leaked)
+    f["binop_lookup_first"] = _decide("binop_operator_lookup_first", sel, [
+        ("r.zz - 1", r1, E("KeyError"), V(False)),
+        ("1 ** r.zz", r1, E("KeyError"), V(False)),
+        ("(r.n % 0) - 1", r1, E("KeyError"), E("ZeroDivisionError")),
+    ])
+    f["tm_keeps_attrs"] = _decide("typematcher_recursion_keeps_attrs", sel, [
+        ("Type.varint.denominator == 1", r2, V(True), V(False)),
+        ("Type.uri.filename == 'evil.bin'", r2, V(True), V(False)),
+        ("Type.uri.hostname == 'other.org'", r2, V(True), V(False)),
+    ], engines=("interpreted", "compiled"))
+    # NoneObject.__getattr__
+    try:
+        got = S.some_attribute
+        attr = "self" if got is S and S.a.b is S else "other"
+    except AttributeError:
+        attr = "raises"
+    try:
+        S.__c07_probe__
+        dunder = "value"
+    except AttributeError:
+        dunder = "raises"
+    if attr == "other" or dunder != "raises":
+        raise Unsupported("NoneObject attribute access: non-dunder -> %s, dunder -> %s" % (attr, dunder))
+    f["sentinel_attr"] = attr == "self"
+    f["boolop_eager_bool"] = _decide("boolop_eager_bool_fold", sel, [
+        ("False and r.n % 0 == 1", r1, E("ZeroDivisionError"), V(False)),
+        ("0 or 'x'", r1, V(True), V("x")),
+        ("r.n and r.m", r1, V(True), V(5)),
+    ])
+    f["boolop_swallow"] = _decide("boolop_swallows_nonetype_typeerror", sel, [
+        ("r.u < 1 or True", r1, V(True), E("TypeError")),
+        ("(None + 1) and True", r1, V(False), E("TypeError")),
+    ])
+    if _run(sel, "interpreted", "('a' < 1) or True", r1)[:2] != E("TypeError"):
+        raise Unsupported("a TypeError that does not mention NoneType is swallowed by and/or")
+    f["binop_guard"] = _decide("binop_sentinel_guard", sel, [
+        ("r.zz + 1", r1, V(False), E("TypeError")), ("2 * r.zz", r1, V(False), E("TypeError"))])
+    f["call_identity"] = _decide("call_allowed_by_identity", sel, [
+        ("any(f('A') == 'a' for f in [lower])", r1, V(True), E("InvalidOperation")),
+    ]) and all(_run(sel, "interpreted", e, r1)[:2] == E("InvalidOperation")
+               for e in ("r.s.upper()", "'abc'.upper()", "any(g() for g in [r.s.upper])", "len(r.a)", "foo(1)"))
+    f["final_typeerror"] = all(_run(sel, "interpreted", e, r1)[:2] == E("TypeError") for e in (
+        "1 if 2 else 3", "r.a[0]", "{1: 2}", "{1, 2}", "[x for x in r.a]", "f'{r.n}'", "(lambda: 1)", "(y := 1)"))
+    # TypeMatcher / TypeMatcherInstance, observed on the real objects
+    T = sel.TypeMatcher(r2)
+    own = list(T.string._values())
+    tm_ok = (list(T.string) == ["s", "t"] and T.zz is S and T.string._x is S and T.net.zz is S
+             and own == ["top", "tt"]
+             and list(T.string.zz._values()) == [] and list(T.varint.real._values()) == []
+             and [x._desc.name for x in T.string._subrecords()] == ["probe/c07inner", "probe/c07inner"]
+             and (T.string == "world") is True and ("orl" in T.string) is True and (T.string == "nope") is False
+             and _run(sel, "interpreted", "Type.string in ['hello']", r2)[:2] == V(False)       # In: the matcher's OWN values
+             and _run(sel, "interpreted", "Type.string in ['top']", r2)[:2] == V(True)
+             and _run(sel, "interpreted", "any(x == 't' for x in Type.string)", r2)[:2] == V(True))
+    f["tm_shapes"] = bool(tm_ok)
+    f["order_bad"] = observe_order(sel, f)
+    return f
+
+
+def crosscheck(sel, f):
+    """the source-shape recognisers as a cross-check of the observed facts: recognised and contradicting -> Unsupported;
+    not recognised -> a note"""
+    notes = []
+    try:
+        branches = _branches(sel)
+    except Unsupported as e:
+        return ["_eval / eval / _is_allowed_callable: shape not recognised (%s); observed behaviour used" % e]
+    shapes = {}
+    for kind, body, lineno in branches:
+        if kind not in REF:
+            notes.append("_eval has a branch for ast.%s (line %d) the model does not know; observed behaviour used" % (kind, lineno))
+            continue
+        nf = normal_form(body)
+        hit = [tag for tag, src in REF[kind] if _ref(src) == nf]
+        if hit:
+            shapes[kind] = hit[0]
+        else:
+            notes.append("the ast.%s branch of _eval (line %d): shape not recognised; observed behaviour used" % (kind, lineno))
+
+    def contra(what, recognised, observed):
+        if recognised != observed:
+            raise Unsupported("%s: the source reads as %r but the engine behaves as %r" % (what, recognised, observed))
+
+    if "Compare" in shapes:
+        contra("compare_is_chained", shapes["Compare"] == "chained", f["chained"])
+    if "GeneratorExp" in shapes:
+        contra("comprehension_ifs_honoured", shapes["GeneratorExp"].startswith("ifs,"), f["ifs"])
+        contra("generator_variables_scoped", shapes["GeneratorExp"].endswith(",scoped"), f["scoped"])
+    if "BinOp" in shapes:
+        contra("binop_operator_lookup_first", shapes["BinOp"] == "lookup_first", f["binop_lookup_first"])
+    try:
+        tms = typematcher_shapes(sel)
+        contra("typematcher_recursion_keeps_attrs", tms["TypeMatcherInstance._op"] == "keeps_attrs", f["tm_keeps_attrs"])
+    except Unsupported as e:
+        if "but the engine behaves" in str(e):
+            raise
+        notes.append("TypeMatcher: %s; observed behaviour used" % e)
+    try:
+        contra("sentinel_attribute_is_sentinel", sentinel_getattr(sel), f["sentinel_attr"])
+    except Unsupported as e:
+        if "but the engine behaves" in str(e):
+            raise
+        notes.append("NoneObject.__getattr__: %s; observed behaviour used" % e)
+    return notes, [k for k, _, _ in branches]
+
+
 def gen_selsem():
     import flow.record.selector as sel
     from flow.record.whitelist import WHITELIST, WHITELIST_TREE
     optbl = operator_table(sel)
-    branches = _branches(sel)
-    order = [k for k, _, _ in branches]
-    shapes = {}
-    for kind, body, lineno in branches:
-        if kind not in REF:
-            raise Unsupported("_eval has a branch for ast.%s (line %d) that the model does not have" % (kind, lineno))
-        nf = normal_form(body)
-        hit = [tag for tag, src in REF[kind] if _ref(src) == nf]
-        if not hit:
-            raise Unsupported("the ast.%s branch of _eval (line %d) has a shape the model does not transcribe" % (kind, lineno))
-        shapes[kind] = hit[0]
-    for kind in REF:
-        if kind not in shapes:
-            raise Unsupported("_eval has no branch for ast.%s" % kind)
+    f = observe(sel)
+    cc = crosscheck(sel, f)
+    notes, order = (cc if isinstance(cc, tuple) else (cc, []))
     out = HEADER
     out += "From Coq Require Import List Bool String.\nImport ListNotations.\nOpen Scope string_scope.\n\n"
-    out += "(* AST_OPERATORS: ast node kind -> operator.<name> *)\n"
+    out += "(* Every fact below is OBSERVED on the live module: tables by identity of the functions, booleans by evaluating witness\n"
+    out += "   expressions with the real engines, evaluation order on logging probe objects.  The source-shape recognisers only\n"
+    out += "   cross-check (recognised and contradicting = translator error). *)\n"
+    for n in notes:
+        out += "(* note: %s *)\n" % n.replace("*)", "* )").replace("(*", "( *")
+    out += "\n(* AST_OPERATORS: ast node kind -> operator.<name> *)\n"
     out += "Definition operator_table : list (string * string) :=\n  %s.\n\n" % clist(
         [cpair(cstr(k), cstr(v)) for k, v in sorted(optbl.items())])
     out += "(* AST_COMPARATORS: the node kinds it has an entry for *)\n"
     out += "Definition comparator_kinds : list string := %s.\n\n" % clist([cstr(k) for k in comparator_kinds(sel)])
-    out += "(* RecordContextMatcher._eval: order of the isinstance(node, ast.<Kind>) tests; the last statement is `raise TypeError(node)` *)\n"
+    out += "(* informational (the node classes are disjoint, the order of the tests has no effect): the isinstance chain of _eval *)\n"
     out += "Definition dispatch_order : list string := %s.\n" % clist([cstr(k) for k in order])
-    out += "Definition final_raise_typeerror : bool := true.\n\n"
-    out += "(* shape of the Compare branch: true = loop over every (op, comparator) pair, conjunction, each operand once;\n"
-    out += "   false = only ops[0] / comparators[0] are looked at *)\n"
-    out += "Definition compare_is_chained : bool := %s.\n" % cbool(shapes["Compare"] == "chained")
-    out += "(* shape of the GeneratorExp branch: true = every condition in gen.ifs is evaluated per value *)\n"
-    out += "Definition comprehension_ifs_honoured : bool := %s.\n" % cbool(shapes["GeneratorExp"].startswith("ifs,"))
-    out += "(* ... and removes its loop variables from self.data in a `finally` when the generator ends *)\n"
-    out += "Definition generator_variables_scoped : bool := %s.\n" % cbool(shapes["GeneratorExp"].endswith(",scoped"))
-    out += "(* shape of the BinOp branch: AST_OPERATORS[type(node.op)] is looked up before the operands are evaluated *)\n"
-    out += "Definition binop_operator_lookup_first : bool := %s.\n" % cbool(shapes["BinOp"] == "lookup_first")
-    out += "(* the remaining branches have exactly the shape transcribed in model/SelSem.v *)\n"
-    out += "Definition boolop_eager_bool_fold : bool := true.\nDefinition boolop_swallows_nonetype_typeerror : bool := true.\n"
-    out += "Definition binop_sentinel_guard : bool := true.\nDefinition call_allowed_by_identity : bool := true.\n\n"
-    tms = typematcher_shapes(sel)
-    out += "(* TypeMatcherInstance._op: the matcher built for a nested record gets the attribute path (self._attrs) too *)\n"
-    out += "Definition typematcher_recursion_keeps_attrs : bool := %s.\n" % cbool(tms["TypeMatcherInstance._op"] == "keeps_attrs")
-    out += "(* TypeMatcher.__getattr__, TypeMatcherInstance.__init__/__getattr__/__iter__/_fields/_values/_subrecords and the\n"
-    out += "   comparison dunders have exactly the shape transcribed in model/SelSem.v *)\n"
-    out += "Definition typematcher_shapes_ok : bool := true.\n"
-    out += "(* NoneObject.__getattr__: a non-dunder attribute of the missing-field sentinel is the sentinel itself *)\n"
-    out += "Definition sentinel_attribute_is_sentinel : bool := %s.\n\n" % cbool(sentinel_getattr(sel))
+    out += "(* node kinds without a branch raise TypeError: IfExp, Subscript, Dict, Set, ListComp, JoinedStr, Lambda, NamedExpr *)\n"
+    out += "Definition final_raise_typeerror : bool := %s.\n\n" % cbool(f["final_typeerror"])
+    out += "(* 1 < r.n < 3 with n = 100 is False: every link of a chained comparison counts *)\n"
+    out += "Definition compare_is_chained : bool := %s.\n" % cbool(f["chained"])
+    out += "(* any(x for x in [1, 2] if x > 5) is False: the conditions of a generator expression are honoured *)\n"
+    out += "Definition comprehension_ifs_honoured : bool := %s.\n" % cbool(f["ifs"])
+    out += "(* any(x == 1 for x in r.a) and any(x == 2 for x in r.a) evaluates: loop variables leave self.data with their generator *)\n"
+    out += "Definition generator_variables_scoped : bool := %s.\n" % cbool(f["scoped"])
+    out += "(* r.zz - 1 raises KeyError: AST_OPERATORS[type(node.op)] is looked up before the operands are evaluated *)\n"
+    out += "Definition binop_operator_lookup_first : bool := %s.\n" % cbool(f["binop_lookup_first"])
+    out += "(* False and r.n % 0 == 1 raises; 0 or 'x' is True: every operand evaluated, bool(), folded *)\n"
+    out += "Definition boolop_eager_bool_fold : bool := %s.\n" % cbool(f["boolop_eager_bool"])
+    out += "(* r.u < 1 or True (u = None) is True; ('a' < 1) or True raises *)\n"
+    out += "Definition boolop_swallows_nonetype_typeerror : bool := %s.\n" % cbool(f["boolop_swallow"])
+    out += "(* r.zz + 1 is False *)\nDefinition binop_sentinel_guard : bool := %s.\n" % cbool(f["binop_guard"])
+    out += "(* any(f('A') == 'a' for f in [lower]) evaluates, r.s.upper() / len(r.a) / foo(1) are refused *)\n"
+    out += "Definition call_allowed_by_identity : bool := %s.\n\n" % cbool(f["call_identity"])
+    out += "(* Type.varint.denominator == 1 / Type.uri.filename == 'evil.bin' with the field only in a nested record *)\n"
+    out += "Definition typematcher_recursion_keeps_attrs : bool := %s.\n" % cbool(f["tm_keeps_attrs"])
+    out += "(* TypeMatcher / TypeMatcherInstance on a probe record: iteration yields own field names, unknown types and private\n"
+    out += "   attributes give NONE_OBJECT, _values follows the attribute path and skips what is missing, _subrecords walks record and\n"
+    out += "   record[] fields, the In special case of the interpreter looks at the matcher's own values only *)\n"
+    out += "Definition typematcher_shapes_ok : bool := %s.\n" % cbool(f["tm_shapes"])
+    out += "(* NONE_OBJECT.x is NONE_OBJECT (a dunder name raises AttributeError) *)\n"
+    out += "Definition sentinel_attribute_is_sentinel : bool := %s.\n" % cbool(f["sentinel_attr"])
+    out += "(* evaluation order and evaluated sub-expressions on logging probes: as transcribed in model/SelSem.v *)\n"
+    for b in f["order_bad"]:
+        out += "(* differs: %s *)\n" % b.replace("*)", "* )").replace("(*", "( *")
+    out += "Definition evaluation_order_as_transcribed : bool := %s.\n\n" % cbool(not f["order_bad"])
     out += "(* self.data as `matches` builds it: name, kind of value *)\n"
     out += "Definition data_names : list (string * string) := %s.\n\n" % clist([cpair(cstr(n), cstr(k)) for n, k in data_names(sel)])
-    out += "Definition function_whitelist_names : list string := %s.\n" % clist([cstr(f.__name__) for f in sel.FUNCTION_WHITELIST])
+    out += "Definition function_whitelist_names : list string := %s.\n" % clist([cstr(fn.__name__) for fn in sel.FUNCTION_WHITELIST])
     out += "(* signatures of the helper functions the model implements: parameter name, default *)\n"
     out += "Definition helper_signatures : list (string * list (string * option bool)) :=\n  %s.\n\n" % clist(
         [cpair(cstr(n), clist([cpair(cstr(p), copt(d, cbool)) for p, d in ps])) for n, ps in helper_signatures(sel)], sep=";\n   ")
     out += "Definition whitelist : list string := %s.\n" % clist([cstr(w) for w in WHITELIST])
     out += "Definition whitelist_roots : list string := %s.\n" % clist([cstr(w) for w in WHITELIST_TREE])
     out += "(* the namespace of the compiled engine besides r / Type: FUNCTION_WHITELIST names and these *)\n"
-    cs = sel.CompiledSelector("True")
-    extra = sorted(k for k in cs.ns if k not in {f.__name__ for f in sel.FUNCTION_WHITELIST})
+    from flow.record.base import DynamicFieldtypeModule, dynamic_fieldtype
+    import datetime
+    # the namespace a match really evaluates in: observed through a selector that returns it
+    r1, _ = _probe_records()
+    live_ns = {}
+    cs = sel.CompiledSelector("__c07_ns__(globals())")
+    cs.ns["__c07_ns__"] = lambda g: live_ns.update(g) or True
+    cs.match(r1)
+    fw = {fn.__name__ for fn in sel.FUNCTION_WHITELIST}
+    extra = sorted(k for k in live_ns if k not in fw and k not in ("r", "Type", "__builtins__", "__c07_ns__"))
+    if not (isinstance(live_ns.get("r"), sel.WrappedRecord) and isinstance(live_ns.get("Type"), sel.TypeMatcher)
+            and all(live_ns.get(n) is getattr(sel, n) for n in fw)):
+        raise Unsupported("CompiledSelector.match does not evaluate with r = WrappedRecord, Type = TypeMatcher and the helper functions")
     out += "Definition compiled_extra_names : list string := %s.\n" % clist([cstr(k) for k in extra])
-    from flow.record.base import DynamicFieldtypeModule
-    from flow.record.base import dynamic_fieldtype
+
+    def dotted(m):       # the dotted path so far: `_path` (`path` before d02d67c)
+        return m.__dict__.get("_path", m.__dict__.get("path"))
 
     def same_as_interpreted(k):
         # what the interpreted engine's Name branch resolves the root to: getattr(dynamic_fieldtype, k)
-        want, got = getattr(dynamic_fieldtype, k), cs.ns[k]
-        def dotted(m):       # the dotted path so far: `_path` (`path` before d02d67c)
-            return m.__dict__.get("_path", m.__dict__.get("path"))
-
+        want, got = getattr(dynamic_fieldtype, k), live_ns[k]
         if isinstance(want, DynamicFieldtypeModule):
             return isinstance(got, DynamicFieldtypeModule) and dotted(got) == dotted(want) == k
-        return type(got) is type(want) and got == want       # before d02d67c `path` was the instance attribute 
+        return type(got) is type(want) and got == want       # before d02d67c `path` was the instance attribute
 
-    dyn = all(same_as_interpreted(k) for k in extra) and isinstance(cs.ns.get("net"), DynamicFieldtypeModule)
+    dyn = all(same_as_interpreted(k) for k in extra) and isinstance(live_ns.get("net"), DynamicFieldtypeModule)
     roots_ok = all(isinstance(getattr(dynamic_fieldtype, k), DynamicFieldtypeModule) for k in WHITELIST_TREE)
     out += "(* getattr(dynamic_fieldtype, <root>) is a field-type module for EVERY whitelisted root (no root is shadowed by an\n"
     out += "   attribute of DynamicFieldtypeModule itself, as `path` was) *)\n"
@@ -687,9 +968,6 @@ def gen_selsem():
     import builtins as _b
     out += "(* names Python itself defines (builtins): outside the model unless bound above *)\n"
     out += "Definition python_builtin_names : list string := %s.\n" % clist([cstr(n) for n in sorted(dir(_b)) if n.isidentifier()])
-    if order != EXPECTED_ORDER:
-        # not fatal for the translator: the proof side condition (C07_generated_shapes) will not check
-        pass
     write_if_changed(GEN / "Gen_selsem.v", out)
 
 
